@@ -229,6 +229,36 @@ def data_validation(res, gam, scn, d, flag):
             viol(res, 'sample(n_bootstraps=1) rejected data although the generated model has no validation block', d, raised, 'draws', invalid=what)
 
 
+def binomial_moments(res, gam, scn, d, rng):
+    """supporting test (NOT a proof), real np.random.binomial, coefficient draws pinned to coef_: over 20000 simulated responses per row the
+    mean is mu and the variance mu (1 - mu/levels), 7 sigma"""
+    N = 20000
+    coef = np.asarray(gam.coef_, dtype=float)
+    X = scn['X'][:6]
+    mu = np.asarray(gam.predict_mu(X), dtype=float)
+    L = float(gam.distribution.levels)
+
+    def mvn(*a, **k):
+        return np.tile(coef, (N, 1))
+    state = np.random.get_state()
+    try:
+        np.random.seed(rng.randrange(1 << 30))
+        with Wrap(multivariate_normal=mvn), np.errstate(all='ignore'):
+            ys = np.asarray(gam.sample(scn['X'], scn['y'], quantity='y', sample_at_X=X, n_draws=N, n_bootstraps=1), dtype=float)
+    finally:
+        np.random.set_state(state)
+    var = mu * (1 - mu / L)
+    zm = np.abs(ys.mean(axis=0) - mu) / (np.sqrt(var / N) + 1e-12)
+    vrel = np.abs(ys.var(axis=0) - var) / (var + 1e-12)
+    res.case(('binomial-moments', d['index']))
+    res.count('binomial(levels=%d) moment test (20000 draws)' % int(L))
+    if zm.max() > 7 or (vrel[var > 1e-3] > 0.15).any() or ys.max() > L or ys.min() < 0:
+        k = int(np.argmax(zm))
+        viol(res, 'simulated binomial responses (real generator, coefficient draws pinned to coef_) do not have mean mu and variance mu (1 - mu/levels) (statistical test)', d,
+             dict(sample_mean=float(ys.mean(axis=0)[k]), sample_var=float(ys.var(axis=0)[k]), z=float(zm[k])), dict(mean=float(mu[k]), var=float(var[k]), levels=L),
+             X_row=[float(x) for x in X[k]])
+
+
 def rejections(res, gam, scn, d, cls):
     X, y = scn['X'], scn['y']
     for kw, exp in [(dict(quantity='foo'), ValueError), (dict(quantity='Y'), ValueError), (dict(quantity='coefs'), ValueError), (dict(quantity=None), ValueError),
@@ -275,12 +305,30 @@ def run(res):
     nstat = 0
     inflation = []
     flag = validates_flag()
-    for i in range(nfits):
-        cls = gen_models.CLASSES[i % 6]
-        regime = regimes[(i // 6) % 4]
-        scn = gen_models.gen_scenario(rng, cls=cls, regime=regime, max_n=40 if res.tier == 'quick' else 100, max_m=14 if res.tier == 'quick' else 30)
-        over = dict(fit_intercept=True) if rng.random() < 0.3 else {}
-        d = dict(gen_models.describe(scn), index=i, fit_intercept=bool(over))
+    BINOMIAL_LEVELS = [2, 6, 12] if res.tier == 'quick' else [2, 6, 12, 3, 40, 2, 6, 12]
+    for i in range(nfits + len(BINOMIAL_LEVELS)):
+        levels = None
+        if i < nfits:
+            cls = gen_models.CLASSES[i % 6]
+            regime = regimes[(i // 6) % 4]
+            scn = gen_models.gen_scenario(rng, cls=cls, regime=regime, max_n=40 if res.tier == 'quick' else 100, max_m=14 if res.tier == 'quick' else 30)
+            over = dict(fit_intercept=True) if rng.random() < 0.3 else {}
+        else:
+            # generic GAM(distribution=BinomialDist(levels=k), link='logit'): counts out of k trials, expected counts above 1
+            import pygam
+            levels = BINOMIAL_LEVELS[i - nfits]
+            cls, regime = 'GAM', 'n>m'
+            scn = gen_models.gen_scenario(rng, cls='LogisticGAM', regime=regime, max_n=40, max_m=10)
+            scn['cls'] = 'GAM'
+            X0 = scn['X'][:, 0]
+            z0 = (X0 - X0.min()) / ((X0.max() - X0.min()) or 1.0)
+            p0 = 1 / (1 + np.exp(-(0.6 + 1.5 * np.sin(3 * z0))))
+            scn['y'] = np.random.RandomState(rng.randrange(1 << 30)).binomial(levels, p0).astype(float)
+            over = dict(distribution=pygam.distributions.BinomialDist(levels=levels), link='logit')
+        d = dict(gen_models.describe(scn), index=i, fit_intercept=bool(over.get('fit_intercept')))
+        if levels is not None:
+            d['distribution'] = 'BinomialDist(levels=%d)' % levels
+            d['link'] = 'logit'
         try:
             gam = fit(scn, **over)
         except ValueError as e:
@@ -292,7 +340,8 @@ def run(res):
             res.count('non-finite fit (skipped)')
             continue
         res.count('%s %s' % (cls, regime))
-        link, fam = gen_models.FAMILY[cls]
+        link, fam = ('LLogit', 'DBinomial') if levels is not None else gen_models.FAMILY[cls]
+        link_mu = ('Gen_LogitLink_mu %d' % levels) if levels is not None else LINK_MU.get(link)
         m = len(coef)
         sc0 = float(gam.distribution.scale)
         nprng = np.random.RandomState(rng.randrange(1 << 30))
@@ -364,6 +413,18 @@ def run(res):
                 if out.shape != (nd, nq) or not np.array_equal(out, expect_y) or pa.get('size', None) is not None:
                     viol(res, 'y draws are not the output of the family primitive on an (n_draws, n_rows) argument array', dd, list(out.shape), [nd, nq])
                     continue
+                if fam == 'DBinomial':
+                    L0 = float(getattr(gam.distribution, 'levels', 1) or 1)
+                    with np.errstate(all='ignore'):
+                        mu_exp = gam.link.mu(lp, gam.distribution)
+                    p_got = np.broadcast_to(np.asarray(pa['p'], dtype=float), (nd, nq))
+                    res.case((i, 'binomial-args', nd, nq))
+                    if not (np.asarray(pa['n']) == L0).all() or not np.allclose(p_got, mu_exp / L0, rtol=1e-9, atol=1e-300):
+                        k = np.unravel_index(int(np.nanargmax(np.abs(p_got - mu_exp / L0))), (nd, nq))
+                        viol(res, 'np.random.binomial did not receive (n, p) = (levels, simulated mean / levels)', dd,
+                             dict(n=np.asarray(pa['n']).ravel()[:3].tolist(), p=float(p_got[k]), draw=int(k[0]), row=int(k[1])),
+                             dict(n=L0, p=float(mu_exp[k] / L0), simulated_mean=float(mu_exp[k])))
+                        continue
                 # recover the means from the primitive's location argument
                 sc, L = float(gam.distribution.scale), float(getattr(gam.distribution, 'levels', 1) or 1)
                 first = np.asarray(pa[PRIM[fam][1][0]], dtype=float)
@@ -395,7 +456,7 @@ def run(res):
                 k = np.argwhere(bad)[0]
                 viol(res, 'simulated mean differs from inverse link(model matrix at sample_at_X . coefficient draw)', dd,
                      float(mu_out[k[0], k[1]]), dict(lo=float(mu_lo[k[0], k[1]]), hi=float(mu_hi[k[0], k[1]]), draw=int(k[0]), row=int(k[1])))
-            elif quantity == 'mu' and link in LINK_MU and m <= 12 and nq <= 4 and len(goals) < (40 if res.tier == 'quick' else 400):
+            elif quantity == 'mu' and link_mu is not None and m <= 12 and nq <= 4 and (levels is not None or len(goals) < (40 if res.tier == 'quick' else 400)):
                 mml = '[' + '; '.join('[' + '; '.join(rlit(x) for x in row) + ']' for row in B) + ']'
                 cdl = '[' + '; '.join('[' + '; '.join(rlit(x) for x in row) + ']' for row in D) + ']'
                 for (dd_, ii) in {(0, 0), (nd - 1, nq - 1)}:
@@ -403,7 +464,7 @@ def run(res):
                     if not math.isfinite(v) or not fin[dd_, ii]:
                         continue
                     tol = max(abs(mu_hi[dd_, ii] - v), abs(v - mu_lo[dd_, ii])) + 2e-9 * abs(v) + 1e-300
-                    goals.append('Rabs (nth %d (nth %d (Gen_mu_draws (%s) %s %s) []) 0 - %s) <= %s' % (ii, dd_, LINK_MU[link], mml, cdl, rlit(v), rlit_frac(Fraction(float(tol)))))
+                    goals.append('Rabs (nth %d (nth %d (Gen_mu_draws (%s) %s %s) []) 0 - %s) <= %s' % (ii, dd_, link_mu, mml, cdl, rlit(v), rlit_frac(Fraction(float(tol)))))
                     meta.append(dict(dd, draw=dd_, row=ii, value=v))
         # --- shapes with the real generator, all three quantities
         for quantity in ('coef', 'mu', 'y'):
@@ -437,6 +498,8 @@ def run(res):
             res.case((i, 'shape', quantity, nd, Xq is None))
             if out.shape != want:
                 viol(res, 'shape of sample(quantity=%s)' % quantity, dict(d, quantity=quantity, n_draws=nd), list(out.shape), list(want))
+        if levels is not None:
+            binomial_moments(res, gam, scn, d, rng)
         if i < 6 or res.tier != 'quick':
             rejections(res, gam, scn, d, cls)
             data_validation(res, gam, scn, d, flag)
